@@ -1168,7 +1168,12 @@ fn dump_problem(problem: &Problem, fmt: &str) -> Value {
                 .collect()
         })
         .collect();
-    json!({"veh": vehicles, "jobs": jobs, "dist": dist, "locs": if stable { json!(loc_seq) } else { Value::Null }})
+    let dist_bits: Vec<Vec<u64>> = points
+        .iter()
+        .map(|a| points.iter().map(|b| problem.transport.distance_approx(&profile, *a, *b).to_bits()).collect())
+        .collect();
+    json!({"veh": vehicles, "jobs": jobs, "dist": dist, "dist_bits": dist_bits,
+           "locs": if stable { json!(loc_seq) } else { Value::Null }})
 }
 
 fn random() -> Arc<dyn Random> {
